@@ -209,6 +209,10 @@ func ErrorMismatch(src string, pos int, vt *rt.GoType) error {
 }
 
 func ErrorField(name string) error {
+	/* the key comes from the input: quote a bounded piece of it */
+	if len(name) > 256 {
+		name = name[:256] + "..."
+	}
 	return errors.New("json: unknown field " + strconv.Quote(name))
 }
 
